@@ -7,7 +7,7 @@ FUNCTIONS = ["linear_scoring.linear_scoring", "gmm.GMMMachine.__init__ (MAP mach
 STUBS = []
 ASSUMPTIONS = ["UBM variances > 0", "frame counts T = 0 exactly or T >= 1 (|T| <= machine epsilon but non-zero is outside the claim)", "real arithmetic",
                "derivative clause: d/d(eps) of the UBM log-likelihood is compared symbolically only through the closed formula (Glembek 2009); the formula itself is the textbook gradient (trusted)"]
-EXHAUSTIVE = ["models as machines / as mean arrays / single 2-D mean array", "stats as list / single object", "offsets 0 / (C,D) / (S,C,D)", "normalisation on/off", "MAP machine or its prior passed as ubm"]
+EXHAUSTIVE = ["models as machines / as mean arrays / single 2-D mean array", "stats as list / single object", "offsets 0 / non-zero scalar / (D,) / (C,D) / (S,C,D)", "normalisation on/off", "MAP machine or its prior passed as ubm"]
 OUTSIDE = ["sizes beyond those listed", "rounding"]
 SIZES = {"quick": [(1, 1), (2, 2)], "thorough": [(1, 1), (2, 2), (3, 2), (2, 3), (3, 3)]}
 
@@ -57,6 +57,12 @@ def sc_linear(B, C, D, M, S, off, norm, models_as, stats_as, ubm_as, zero_last=F
         so.append(dict(n=n, F=F, t=t, zero=zero))
     if off == "zero":
         offsets, of = 0, (lambda s, c, d: 0)
+    elif off == "scalar":
+        O = B.real("o")
+        offsets, of = O, (lambda s, c, d: O)
+    elif off == "d":
+        O = B.arr("o", (D,))
+        offsets, of = B.copy(O), (lambda s, c, d: O[d])
     elif off == "cd":
         O = B.arr("o", (C, D))
         offsets, of = B.copy(O), (lambda s, c, d: O[c, d])
@@ -171,7 +177,7 @@ def job_history(P, C, D):
 
 
 def job_linear(P, C, D, M, S):
-    for off in ("zero", "cd", "scd"):
+    for off in ("zero", "scalar", "d", "cd", "scd"):
         for norm in (False, True):
             for models_as in ("machines", "array", "list") + (("single2d",) if M == 1 else ()):
                 for stats_as in ("list",) + (("single",) if S == 1 else ()):
